@@ -35,6 +35,7 @@ type TierCfg struct {
 }
 
 type HarnessCfg struct {
+	Func     string  `json:"func"` // harness function (default: Name)
 	Name     string  `json:"name"`
 	What     string  `json:"what"`
 	Quick    TierCfg `json:"quick"`
@@ -58,6 +59,7 @@ type CheckCfg struct {
 
 type HarnessResult struct {
 	Name        string
+	Func        string
 	What        string
 	Pkg         string
 	Paths       int
@@ -237,12 +239,16 @@ func runHarness(l *loaded, h HarnessCfg, tier string) HarnessResult {
 			tc = h.Quick
 		}
 	}
-	r := HarnessResult{Name: h.Name, What: h.What, Pkg: l.group.Pkg, Bounds: tc.Params, Functions: map[string]int{}}
+	r := HarnessResult{Name: h.Name, Func: h.Func, What: h.What, Pkg: l.group.Pkg, Bounds: tc.Params, Functions: map[string]int{}}
 	if tc.Skip {
 		r.SkippedTier = true
 		return r
 	}
-	fn := l.pkg.Func(h.Name)
+	fname := h.Func
+	if fname == "" {
+		fname = h.Name
+	}
+	fn := l.pkg.Func(fname)
 	if fn == nil {
 		r.Faults = append(r.Faults, "harness function not found: "+h.Name)
 		return r
@@ -254,18 +260,17 @@ func runHarness(l *loaded, h HarnessCfg, tier string) HarnessResult {
 			qms = 300000
 		}
 	}
-	pf, err := NewPortfolio(qms, h.Solvers)
-	if err != nil {
-		r.Faults = append(r.Faults, "solver start: "+err.Error())
-		return r
+	newSolver := func() (*Portfolio, error) {
+		pf, err := NewPortfolio(qms, h.Solvers)
+		if err == nil {
+			if lf := os.Getenv("SMTLOG"); lf != "" {
+				f, _ := os.OpenFile(lf+"."+h.Name+".smt2", os.O_APPEND|os.O_CREATE|os.O_WRONLY, 0o644)
+				pf.Log = f
+			}
+		}
+		return pf, err
 	}
-	defer pf.Close()
-	if lf := os.Getenv("SMTLOG"); lf != "" {
-		f, _ := os.Create(lf + "." + h.Name + ".smt2")
-		pf.Log = f
-		defer f.Close()
-	}
-	e := &Engine{prog: l.prog, pkg: l.pkg, Solver: pf, Harness: h.Name, Reached: map[string]bool{}, fset: l.fset,
+	e := &Engine{prog: l.prog, pkg: l.pkg, newSolver: newSolver, Harness: h.Name, Reached: map[string]bool{}, fset: l.fset,
 		stubs: l.stubs, FnSeen: map[string]int{}, Stubs: map[string]bool{}, rtPkgFns: l.rt, MaxPaths: tc.MaxPaths}
 	if tc.TimeoutS > 0 {
 		e.deadline = time.Now().Add(time.Duration(tc.TimeoutS) * time.Second)
@@ -299,18 +304,31 @@ func runHarness(l *loaded, h HarnessCfg, tier string) HarnessResult {
 			}
 		}()
 		e.cur = root
+		pf0, err := newSolver()
+		if err != nil {
+			e.Faults = append(e.Faults, "solver start: "+err.Error())
+			return
+		}
+		e.Solver = pf0
 		e.runInit(root, l.pkg)
 		e.Run(fn, root)
 	}()
 	r.Paths, r.PathsSym, r.Oblig, r.Discharged, r.Sat = e.Paths, e.PathsSym, e.Oblig, e.Dis, e.Sat
-	r.Queries, r.SolverS = pf.Queries, pf.Time.Seconds()
+	r.ByWinner = map[string]int{}
+	for _, pf := range e.SolverStats {
+		r.Queries += pf.Queries
+		r.SolverS += pf.Time.Seconds()
+		for k, v := range pf.ByWinner {
+			r.ByWinner[k] += v
+		}
+		r.Disagree = append(r.Disagree, pf.Disagree...)
+		r.SolverErrs = append(r.SolverErrs, pf.Errors...)
+	}
+	r.SolverErrs = dedup(r.SolverErrs)
 	r.Findings, r.Incon, r.Faults = e.Findings, dedup(e.Incon), dedup(e.Faults)
 	r.Samples = e.Samples
 	r.Notes = e.Axioms
 	r.Assumes = e.Assumes
-	r.ByWinner = pf.ByWinner
-	r.Disagree = pf.Disagree
-	r.SolverErrs = dedup(pf.Errors)
 	if len(r.SolverErrs) > 5 {
 		r.SolverErrs = r.SolverErrs[:5]
 	}
@@ -369,12 +387,22 @@ func main() {
 		if len(os.Args) > 5 {
 			fmt.Sscan(os.Args[5], &unwind)
 		}
-		g := GroupCfg{Pkg: os.Args[2], Files: []string{os.Args[3]}, Harnesses: []HarnessCfg{{Name: os.Args[4], Quick: TierCfg{Unwind: unwind}}}}
+		params := map[string]int{}
+		for _, kv := range strings.Split(os.Getenv("VERIF_PARAMS"), ",") {
+			if i := strings.Index(kv, "="); i > 0 {
+				var n int
+				fmt.Sscan(kv[i+1:], &n)
+				params[kv[:i]] = n
+			}
+		}
+		g := GroupCfg{Pkg: os.Args[2], Files: strings.Split(os.Args[3], ","), Harnesses: []HarnessCfg{{Name: os.Args[4], Quick: TierCfg{Unwind: unwind, Params: params, TimeoutS: envInt("VERIF_TIMEOUT_S"), MaxPaths: envInt("VERIF_MAXPATHS")}, Solvers: os.Getenv("VERIF_SOLVERS")}}}
 		l, err := loadGroup(g)
 		if err != nil {
 			fmt.Fprintln(os.Stderr, err)
 			os.Exit(2)
 		}
+		tokens = make(chan struct{}, maxPar())
+		tokens <- struct{}{}
 		r := runHarness(l, g.Harnesses[0], "quick")
 		printResult(r)
 		os.MkdirAll("/tmp/verif-run", 0o755)
@@ -458,7 +486,7 @@ func cmdCheck(id, tier string) int {
 	var loadS float64
 	var loadErrs []string
 	var mu sync.Mutex
-	sem := make(chan struct{}, maxPar())
+	tokens = make(chan struct{}, maxPar())
 	for _, g := range cfg.Groups {
 		l, err := loadGroup(g)
 		if err != nil {
@@ -472,10 +500,10 @@ func cmdCheck(id, tier string) int {
 				continue
 			}
 			wg.Add(1)
-			sem <- struct{}{}
+			tokens <- struct{}{}
 			go func(h HarnessCfg) {
 				defer wg.Done()
-				defer func() { <-sem }()
+				defer func() { <-tokens }()
 				r := runHarness(l, h, tier)
 				mu.Lock()
 				results = append(results, r)
@@ -492,12 +520,18 @@ func cmdCheck(id, tier string) int {
 }
 
 func maxPar() int {
-	n := runtime.NumCPU() / 2
+	n := runtime.NumCPU() - 2
 	if n < 1 {
 		n = 1
 	}
 	if v := os.Getenv("VERIF_PAR"); v != "" {
 		fmt.Sscan(v, &n)
 	}
+	return n
+}
+
+func envInt(k string) int {
+	n := 0
+	fmt.Sscan(os.Getenv(k), &n)
 	return n
 }
